@@ -29,7 +29,7 @@ PROPS = {
         'assumptions': ['topic names starting with $ are outside the property'],
     },
     'C15': {
-        'engines': [('ids', 200, 2000), ('idconc', 1, 1), ('initid', 2000, 200000), ('apipub', 150, 3000), ('rhandle', 1, 1)],
+        'engines': [('ids', 200, 2000), ('idconc', 1, 1), ('initid', 2000, 200000), ('apipub', 150, 3000), ('rhandle', 1, 1), ('idreuse', 1, 1)],
         'rule': 'id sequences from counter values around every wrap point (uint16 and uint32) compared with the model; full 65535-call '
                 'windows checked for duplicates; concurrent callers (2..64 goroutines) checked for duplicates and zero',
         'partial': 'the statement "unique among outstanding requests" is proved for requests issued within the last 65535 issues '
@@ -69,7 +69,7 @@ PROPS = {
     },
     'C01': {
         'lean_modules': ['C01'],
-        'engines': [('retry', 300, 2500)],
+        'engines': [('retry', 300, 2500), ('oversized', 1, 1)],
         'rule': 'scripts of environment events (app requests before Connect / while connected / during an outage, dial results, CONNACK accepted with or without session / refused / never, peer close, inbound messages, Handle) with a per-packet fault plan (write failure, lost request, lost acknowledgement, silent) and a friendly tail; hand-written witnesses of the repaired defects first; all single- and double-fault plans over short histories in the thorough tier; non-trivial = the script reached at least one connection',
         'assumptions': ['one task of the RetryClient is one atomic model step (single task goroutine, one request outstanding at a time)',
                         'the transport either delivers a whole packet or fails the write; the broker conforms to MQTT 3.1.1 (Spec in Model/Retry: Broker)',
